@@ -5,7 +5,7 @@ P = {
     "level_text": "exploration: generated and enumerated operation sequences over set/set_subtree/delete/copy/queries/malformed descriptors/quote_key are compared step by step with the document model; failures shrink to a minimal replayable sequence.",
     "design_ref": "DESIGN.md section 3 C13",
     "sources": ["harness/props/C13.cpp"],
-    "rule": "random operation sequences (<= 200 ops; a quarter of them through vnacal_property_* on the global root of a vnacal_t) and bounded-exhaustive enumeration over a 5-operation alphabet on keys {a,b}, indices {0,1}; after every step the tree read through type/count/keys/get/get_subtree must equal the document model and return values/errno must match vnaproperty(3); non-trivial = sequence whose descriptors mix map and list levels and that contains a replace-of-conflicting-type, a list insert/delete with index shift, or a key needing quotes; distinct = distinct choice tapes",
+    "rule": "random operation sequences (<= 200 ops; a quarter of them through vnacal_property_* on the global root of a vnacal_t) and bounded-exhaustive enumeration over a 5-operation alphabet on keys {a,b}, indices {0,1}; after every step the tree read through type/count/keys/get/get_subtree must equal the document model and return values/errno must match vnaproperty(3); non-trivial = sequence whose descriptors mix map and list levels and that contains a replace-of-conflicting-type, a list insert/delete with index shift, or a key needing quotes; distinct = distinct choice tapes; 1 random set in 10 appends a list index beyond INT_MAX to an otherwise valid path: must fail (EINVAL / ENOMEM) and leave the tree unchanged",
     "assumptions": COMMON_ASSUME + ["docmodel.hpp is a faithful reading of vnaproperty(3)", "errno is not compared where two documented causes apply to the same call (missing element met before a malformed tail; insert subscript in a look-up)"],
     "exhaustive_scope": "all operation sequences of the small-scope alphabet up to the depth given by max_size of the enum job",
     "tiers": tiers(
